@@ -143,7 +143,7 @@ def rule_R4(ck):
             I_.effect("get_as_int", a[3], k.get("bitness"), k.get("unsigned"))
             return N
         I.summaries["metacommand_impl::get_as_int"] = gai
-        I.summaries["compiler::Compiler.set_link_address"] = lambda I_, fn, a, k: calls.append(a[1:]) or None
+        I.summaries["compiler::Compiler.set_link_address"] = lambda I_, fn, a, k: calls.append(I_.positional(fn, a, k)[1:]) or None
 
         def thunk():
             del calls[:]
